@@ -132,6 +132,7 @@ func verifHandlerSmallPanic(ctx context.Context, conn Connection) error {
 //verif:loop 40
 //verif:poloop 3
 //verif:potimeout 300
+//verif:also C19
 func verifHarness_C05_teardown(cfg int) { verifTeardown(cfg) }
 
 //verif:po
